@@ -47,7 +47,8 @@ class VHDX(AlignedStream):
     def __init__(self, fh: BinaryIO | Path | str):
         if hasattr(fh, "read"):
             name = getattr(fh, "name", None)
-            path = Path(name) if name else None
+            # Anonymous files (tempfile.TemporaryFile, os.fdopen) carry a file descriptor number as name
+            path = Path(name) if name and isinstance(name, (str, os.PathLike)) else None
         else:
             if not isinstance(fh, Path):
                 fh = Path(fh)
